@@ -8,6 +8,9 @@ pub fn dispatch(op: &str, case: &Value) -> Value {
         "version_header" => op_version_header(case),
         "path" => op_path(case),
         "body" => op_body(case),
+        "http_error" => op_http_error(case),
+        "status_code" => op_status_code(case),
+        "status_scan" => op_status_scan(case),
         _ => json!({"error": format!("unknown op {}", op)}),
     }
 }
@@ -225,4 +228,79 @@ fn op_body(case: &Value) -> Value {
             json!({"status": r.status, "seen": seen, "seen_max": seen_max, "body": String::from_utf8_lossy(&r.body)})
         }
     }
+}
+
+// ---------------------------------------------------------------------------------- C13
+/// {"op":"http_error","ctor":..,"status":n,"code":s|null,"message":s,"internal":s,"headers":[[n,v]..],"request_id":s}
+fn op_http_error(case: &Value) -> Value {
+    use dropshot::ClientErrorStatusCode;
+    use http_body_util::BodyExt;
+    let code = case["code"].as_str().map(|s| s.to_string());
+    let msg = case["message"].as_str().unwrap_or("m").to_string();
+    let internal = case["internal"].as_str().unwrap_or("i").to_string();
+    let status = case["status"].as_u64().unwrap_or(400) as u16;
+    let ctor = case["ctor"].as_str().unwrap_or("").to_string();
+    let rid = case["request_id"].as_str().unwrap_or("rid").to_string();
+    let headers: Vec<(String, String)> = case["headers"].as_array().cloned().unwrap_or_default().iter()
+        .map(|p| (p[0].as_str().unwrap().to_string(), p[1].as_str().unwrap().to_string())).collect();
+    let r = crate::quiet(move || {
+        let cs = || ClientErrorStatusCode::from_u16(status).expect("4xx");
+        let mut e = match ctor.as_str() {
+            "for_client_error" => HttpError::for_client_error(code, cs(), msg),
+            "for_internal_error" => HttpError::for_internal_error(internal),
+            "for_unavail" => HttpError::for_unavail(code, internal),
+            "for_bad_request" => HttpError::for_bad_request(code, msg),
+            "for_client_error_with_status" => HttpError::for_client_error_with_status(code, cs()),
+            _ => HttpError::for_not_found(code, internal),
+        };
+        for (n, v) in &headers {
+            e.add_header(n.as_str(), v.as_str()).expect("header");
+        }
+        e.into_response(&rid)
+    });
+    match r {
+        Err(p) => json!({"panic": p}),
+        Ok(resp) => {
+            let status = resp.status().as_u16();
+            let hs: Vec<Value> = resp.headers().iter().map(|(k, v)| json!([k.as_str(), v.to_str().unwrap_or("?")])).collect();
+            let get = |n: &str| -> Vec<String> { resp.headers().get_all(n).iter().map(|v| v.to_str().unwrap_or("?").to_string()).collect() };
+            let (xr, ct) = (get("x-request-id"), get("content-type"));
+            let rt = tokio::runtime::Builder::new_current_thread().enable_all().build().unwrap();
+            let bytes = rt.block_on(async move { resp.into_body().collect().await.map(|c| c.to_bytes().to_vec()).unwrap_or_default() });
+            let raw = String::from_utf8_lossy(&bytes).to_string();
+            let body: Value = serde_json::from_slice(&bytes).unwrap_or(Value::Null);
+            json!({"status": status, "headers": hs, "x_request_id": xr, "content_type": ct, "body": body, "raw_body": raw})
+        }
+    }
+}
+
+/// {"op":"status_code","value":n} -> which refinement types accept it
+fn op_status_code(case: &Value) -> Value {
+    let v = case["value"].as_u64().unwrap() as u16;
+    let e = dropshot::ErrorStatusCode::from_u16(v);
+    let c = dropshot::ClientErrorStatusCode::from_u16(v);
+    let as_client = e.as_ref().ok().map(|e| e.as_client_error().is_ok());
+    json!({"value": v, "error": e.is_ok(), "client": c.is_ok(), "error_as_client": as_client,
+           "stored": e.ok().map(|e| e.as_u16())})
+}
+
+/// {"op":"status_scan"} -> every u16 whose acceptance by the refinement types is wrong
+fn op_status_scan(_case: &Value) -> Value {
+    let mut bad = vec![];
+    for v in 0..=u16::MAX {
+        let e = dropshot::ErrorStatusCode::from_u16(v);
+        let c = dropshot::ClientErrorStatusCode::from_u16(v);
+        let mut ok = e.is_ok() == (400..=599).contains(&v) && c.is_ok() == (400..=499).contains(&v);
+        if let Ok(e) = &e {
+            ok = ok && e.as_u16() == v && e.as_client_error().is_ok() == (v <= 499);
+        }
+        if let Ok(s) = http::StatusCode::from_u16(v) {
+            ok = ok && dropshot::ErrorStatusCode::from_status(s).is_ok() == (400..=599).contains(&v)
+                && dropshot::ClientErrorStatusCode::from_status(s).is_ok() == (400..=499).contains(&v);
+        }
+        if !ok && bad.len() < 8 {
+            bad.push(v);
+        }
+    }
+    json!({"mismatches": bad})
 }
